@@ -2,7 +2,7 @@
     (Wing-Gong search over the bounded-FIFO specification of Model/Ring.v) and
     the correspondence cases of C48. Definitions only. *)
 From Coq Require Import List NArith ZArith Bool Arith.
-From Scion Require Import Lib.Check Model.Ring.
+From Scion Require Import Lib.Check Model.Ring Model.PktLin.
 Import ListNotations.
 Import Ring.
 
@@ -76,8 +76,11 @@ Inductive case :=
     (* sequential op list on one ring; impl = (count, blocked, entries) per op *)
 | CHist (c : nat) (init : option (list N)) (h : list hrec)
     (* completed concurrent history with stamps *)
-| CPkt (ops : list pop) (impl : list pobs).
+| CPkt (ops : list pop) (impl : list pobs)
     (* sequential op list on a pktRing *)
+| CPktHist (fill : list N) (h : list PktLin.prec).
+    (* concurrent pktRing history (writers, one reader, close) on a ring pre-filled
+       sequentially with [fill], ending with the runner's drain *)
 
 Definition f_init (init : option (list N)) : fifo := {| q := init_queue init; cl := false |}.
 
@@ -102,6 +105,14 @@ Definition check (x : case) : N :=
     end
   | CPkt ops impl =>
     Check.verdict (opobs_eqb (pkt_run pkt_new ops) (map Some impl)) (pkt_oracle ops impl)
+  | CPktHist fill h =>
+    if PktLin.content_ok fill h then
+      match PktLin.plin_check PktLin.default_fuel fill h with
+      | PktLin.Found _ => 0
+      | PktLin.NoLin => 3
+      | PktLin.OutOfFuel => 1
+      end
+    else 3
   end%N.
 
 (** what the model says: the results of a sequential run / the invocation
@@ -116,6 +127,12 @@ Definition diag (x : case) : list (option obs) * list (option pobs) * (N * list 
     | OutOfFuel => ([], [], (1, []))
     end
   | CPkt ops _ => ([], pkt_run pkt_new ops, (0, []))
+  | CPktHist fill h =>
+    match PktLin.plin_check PktLin.default_fuel fill h with
+    | PktLin.Found l => ([], [], ((if PktLin.content_ok fill h then 2 else 3), map PktLin.p_inv l))
+    | PktLin.NoLin => ([], [], (0, []))
+    | PktLin.OutOfFuel => ([], [], (1, []))
+    end
   end%N.
 
 End RingLin.
